@@ -106,7 +106,12 @@ def build(rng, case):
         kw["%s_types" % kind] = [int(x) for x in rng.integers(0, k, len(terms))]
         if rng.integers(3) > 0:
             kw["%s_type_coeffs" % kind] = [coeff_string(rng, "%s%d" % (kind[0], t)) for t in range(k)]
-    return Atoms(**kw)
+    a = Atoms(**kw)
+    if case["s"] % 6 == 4:
+        from vmon.oracle.util import non_ascii
+        non_ascii(a)
+        case["_non_ascii"] = True
+    return a
 
 
 def split_coeff(s):
@@ -250,7 +255,7 @@ def save_text(a, style, via, tmpdir=None):
             if not name.endswith(".lmpdat"):
                 kw = dict(kw, filetype="lmpdat")
             a.save(p if len(a) % 2 else pathlib.Path(p), **kw)
-            with open(p) as fh:
+            with open(p, encoding="utf-8") as fh:
                 return fh.read()
         finally:
             shutil.rmtree(d, ignore_errors=True)
@@ -274,13 +279,13 @@ def load_text(text, style, via, case_id):
     name = ["x.lmpdat", "x.data", "x.lmpdat", "x.cml"][case_id % 4 if case_id % 8 >= 4 else 0]
     p = os.path.join(worker_dir(), name)        # the same path from case to case, each time with other content
     if name != "x.lmpdat":
-        with open(p, "w") as f:
+        with open(p, "w", encoding="utf-8") as f:
             f.write(text)
         import pathlib
         return Atoms.load(pathlib.Path(p) if case_id % 2 else p, filetype="lmpdat", atom_format=style)
     from vmon.oracle.util import prime_path
     prime_path(p)
-    with open(p, "w") as f:
+    with open(p, "w", encoding="utf-8") as f:
         f.write(text)
     import pathlib
     return Atoms.load(pathlib.Path(p) if case_id % 2 else p, atom_format=style)
@@ -364,6 +369,8 @@ def run_case(case, ctx):
         st.count("structures_with_coordinates_beyond_the_usual_field_width")
     if case.get("_empty_label"):
         st.count("structures_with_an_empty_type_label")
+    if case.get("_non_ascii"):
+        st.count("structures_with_non_ascii_labels_and_comments.via_%s" % case["via"])
     if case.get("_table_without_terms"):
         st.count("structures_with_a_coefficient_table_for_a_kind_without_terms")
     st.seen("cell", case["cell"] + ("" if case["cell"] == "ortho" else str(case["tilt_signs"])))
@@ -463,6 +470,8 @@ def requirements(stats, tier):
         need.append("structures with a coefficient table for a kind without terms: %d" % stats.get("structures_with_a_coefficient_table_for_a_kind_without_terms"))
     if stats.get("structures_with_coordinates_beyond_the_usual_field_width") < (8 if tier == "quick" else 2000):
         need.append("structures with coordinates <= -100 or >= 1000: %d" % stats.get("structures_with_coordinates_beyond_the_usual_field_width"))
+    if stats.get("structures_with_non_ascii_labels_and_comments.via_save_load_path") < (5 if tier == "quick" else 500):
+        need.append("structures with non-ASCII labels and comments saved to and loaded from a path: %d" % stats.get("structures_with_non_ascii_labels_and_comments.via_save_load_path"))
     if stats.get("structures_with_an_empty_type_label") < (5 if tier == "quick" else 1000):
         need.append("structures with an empty type label: %d" % stats.get("structures_with_an_empty_type_label"))
     if stats.nseen("style") < 2 or stats.nseen("tables") < 5:
